@@ -45,5 +45,30 @@ mk(B,'b47_intow_first_file','C01 C06',RD,'            file_number: self.file_num
 mk(G,'g13_intow_commute','-',RD,'let offset = self.block_id * crate::BLOCK_NUM_BYTES;','let offset = crate::BLOCK_NUM_BYTES * self.block_id;','commuted product')
 mk(B,'b48_summary_end_next','C05',MQ,'            end: self.last_position(),','            end: Some(self.next_position()),','summary reports the next position as the last one')
 mk(B,'b49_summary_skips_empty','C05','src/mem/queues.rs','            summary.queues.insert(queue_name.clone(), queue.summary());','            if !queue.is_empty() { summary.queues.insert(queue_name.clone(), queue.summary()); }','summary omits empty queues')
+mk(B,'b50_open_any_entry','C17',RD,'''            if !dir_entry.file_type()?.is_file() {
+                continue;
+            }
+''','''            if dir_entry.file_type()?.is_dir() {
+                continue;
+            }
+''','directory scan skips directories only: symlinks, fifos, sockets named like WAL files are tracked')
+mk(B,'b51_open_skips_errors','C11',RD,'            let dir_entry = dir_entry_res?;','            let Ok(dir_entry) = dir_entry_res else { continue };','an I/O error while listing the directory is skipped instead of reported')
+mk(G,'g14_open_name_first','-',RD,'''            if !dir_entry.file_type()?.is_file() {
+                continue;
+            }
+            let file_name = if let Some(file_name) = dir_entry.file_name().to_str() {
+                file_name.to_string()
+            } else {
+                continue;
+            };
+''','''            let file_name = if let Some(file_name) = dir_entry.file_name().to_str() {
+                file_name.to_string()
+            } else {
+                continue;
+            };
+            if !dir_entry.file_type()?.is_file() {
+                continue;
+            }
+''','directory scan looks at the name before the type')
 shutil.rmtree(W, ignore_errors=True)
 subprocess.run(['git','-C','/repo','worktree','prune'],check=True)
